@@ -24,7 +24,7 @@ DOMAIN = {
     "kernel": ["tpcn", "rwm"], "resampler": ["mult", "syst"], "clustering": ["on", "off"], "normalize": ["on", "off"],
     "clusterEvery": ["1", "2", "3"], "cap": ["none", "1", "2"], "split": ["half", "one", "two"],
     "metric": ["ess1", "ess2", "vvsmall", "vvbig"], "nSteps": ["none", "1", "3"], "nMaxSteps": ["none", "2", "40"],
-    "evaluation": ["scalar", "vector", "blobs"], "bounds": ["none", "periodic", "reflective", "both"],
+    "evaluation": ["scalar", "vector", "blobs"], "bounds": ["none", "periodic", "reflective", "both", "emptylists"],
     "pool": ["none", "one", "two", "like"], "saveEvery": ["none", "1", "3"], "nParticles": ["small", "default"],
     "nDim": ["two", "three"],
 }
@@ -61,7 +61,7 @@ def concretize(c):
                  "ess0": dict(ess_ratio=0.0), "essneg": dict(ess_ratio=-1.0), "vv0": dict(volume_variation=0.0), "vvneg": dict(volume_variation=-0.5),
                  "ess0vv": dict(ess_ratio=0.0, volume_variation=0.25), "essnegvv": dict(ess_ratio=-1.0, volume_variation=0.25)}[c["metric"]])
     conf["evaluation"] = c["evaluation"]
-    conf.update({"none": {}, "periodic": dict(periodic=[0]), "reflective": dict(reflective=[1]), "both": dict(periodic=[0], reflective=[1]),
+    conf.update({"none": {}, "periodic": dict(periodic=[0]), "reflective": dict(reflective=[1]), "both": dict(periodic=[0], reflective=[1]), "emptylists": dict(periodic=[], reflective=[]),
                  "overlap": dict(periodic=[0], reflective=[0]), "outofrange": dict(periodic=[nd]), "negative": dict(reflective=[-1]),
                  "nonint": dict(periodic=[0.5])}[c["bounds"]])
     conf["pool"] = {"none": None, "one": 1, "two": 2, "like": "perm"}[c["pool"]]
